@@ -225,6 +225,7 @@ func main() {
 	fs.Parse(os.Args[2:])
 	switch cmd {
 	case "run":
+		defer replayCleanup()
 		t0 := time.Now()
 		e, err := loadEngine()
 		if err != nil {
